@@ -3,16 +3,16 @@
 # usage: mutcheck.py <file-rel-to-repo> <old> <new> <prop> [<prop>...]   (old/new are python-escaped strings)
 #    or: mutcheck.py --patch <diff> <prop> [...]
 import os, subprocess, sys
-REPO = "/repo"
+REPO = os.environ.get("VERIF_REPO", "/repo")
 def sh(cmd, **kw):
     return subprocess.run(cmd, shell=True, text=True, stdout=subprocess.PIPE, stderr=subprocess.STDOUT, **kw)
 def main():
     a = sys.argv[1:]
-    if sh("git -C /repo status --porcelain").stdout.strip():
+    if sh("git -C %s status --porcelain" % REPO).stdout.strip():
         print("repo not clean"); return 2
     try:
         if a[0] == "--patch":
-            r = sh("git -C /repo apply " + a[1]); props = a[2:]
+            r = sh("git -C %s apply %s" % (REPO, a[1])); props = a[2:]
             if r.returncode: print(r.stdout); return 2
         else:
             f, old, new = a[0], a[1].encode().decode("unicode_escape"), a[2].encode().decode("unicode_escape")
@@ -27,6 +27,6 @@ def main():
             lines = [l for l in r.stdout.splitlines() if l.startswith(("VIOLATION", "RESULT", "INFRA", "KNOWN", "  what"))]
             print("\n".join(lines[:6] + lines[-1:]))
     finally:
-        sh("git -C /repo checkout -- .")
+        sh("git -C %s checkout -- ." % REPO)
     return 0
 sys.exit(main())
